@@ -57,6 +57,8 @@ func leavesC04() []*qast.Node {
 	return ls
 }
 
+var c04FieldNames = []string{`a\?b`, `\?`, `a\ b`, "é", `a\$1`, `x\%s`, `a\'b`, `\?\?`}
+
 var substAlternatives = map[string][]qast.Value{
 	qast.VInt:    {qast.I("0"), qast.I("5"), qast.I("-5"), qast.I("1099511627776")},
 	qast.VFloat:  {qast.F("0.5"), qast.F("1.25")},
@@ -79,6 +81,7 @@ func init() {
 				}
 			}
 			us = append(us, core.Unit{Name: "substleaves", Weight: 2})
+			us = append(us, core.Unit{Name: "fields", Weight: 2})
 			add(qast.TreeUnits("vals|c04l|c04l", len(treeSet("c04l")), 16), 3)
 			add(qast.TreeUnits("tree|full|1|param", len(treeSet("full0")), 1), 1)
 			add(qast.TreeUnits("tree|small6|2|param", len(treeSet("small1")), 8), 2)
@@ -96,7 +99,7 @@ func init() {
 		Run:    c04Run,
 		Eval:   c04Eval,
 		Shrink: c04Shrink,
-		Rule: "every query over the C03 leaf alphabet extended with regexps of length 1-3 and one-character patterns at depth <= 1 (with the generator's value list), every tree of TREE(L_full,1) ∪ TREE(L_small,2) (thorough TREE(L_full,2)) and every accepted member of TOK(Σ_full,N), with and without default field; " +
+		Rule: "every query over the C03 leaf alphabet extended with regexps of length 1-3 and one-character patterns at depth <= 1 (with the generator's value list), every tree of TREE(L_full,1) ∪ TREE(L_small,2) (thorough TREE(L_full,2)) and every accepted member of TOK(Σ_full,N), with and without default field; every leaf also under 8 field names and every TREE(L_full,0) text under 5 default-field names spelling ? $1 %s quote blank non-ASCII; " +
 			"plus every same-kind substitution of one value slot (ints 0 5 -5 2^40, floats, words, phrases, patterns w* * ? a?b, regexps /b/ /ab/ /abc/ /a*/); non-trivial = renderable inline; distinct = distinct parameterised SQL texts; states count probe-row evaluations",
 		Assumptions: []string{"equivalence is judged by evaluation over probe rows (as C03), not by text", "queries the inline renderer rejects are outside the quantifier"},
 		Bounds: func(tier string) map[string]any {
@@ -164,6 +167,27 @@ func c04Run(w *core.Worker, tier, unit string) {
 	case "substleaves":
 		for _, l := range treeSet("c04l") {
 			substCases(l, func(a, b string) { w.Do(core.Case{Kind: "subst", In: core.BStr(a), In2: core.BStr(b)}) })
+		}
+	case "fields":
+		// field names (and default-field names) made of the characters the SQL text gives a meaning:
+		// the placeholder, quotes, a dollar parameter, a format verb, blanks, non-ASCII
+		for _, l := range treeSet("c04l") {
+			// a leaf that already fails under its plain field name is reported (or ledgered) there
+			if base := c04Eval(core.Case{Kind: "q", In: core.BStr(qast.Text(l, &qast.PrintOpts{Full: true})), Tree: qast.Encode(l)}); len(base.Obs) > 0 {
+				w.Count("fields_skipped_base_violates", 1)
+				continue
+			}
+			for _, f := range c04FieldNames {
+				lf := *l.Leaf
+				lf.Field = f
+				t := qast.Lf(lf)
+				w.Do(core.Case{Kind: "q", In: core.BStr(qast.Text(t, &qast.PrintOpts{Full: true})), Tree: qast.Encode(t)})
+			}
+		}
+		for _, t := range treeSet("full0") {
+			for _, df := range []core.BStr{"w?", "a b", "$1", "%s", "é"} {
+				w.Do(core.Case{Kind: "q", In: core.BStr(qast.Text(t, nil)), DF: df})
+			}
 		}
 	case "subst":
 		leaves, sub := treeSet(p[1]), treeSet(p[2])
